@@ -1,4 +1,5 @@
 import Poulpy.Lemmas.CoreOpsVal
+import Poulpy.Lemmas.CoreOpsProg
 
 /-!
 # C02 — noise-free ciphertext operations commute exactly with decryption
@@ -31,6 +32,9 @@ namespace C02
 open Hal Core Core.Ops C02L
 
 deriving instance DecidableEq for Core.GLWE
+deriving instance DecidableEq for Core.Ops.GGSW
+deriving instance DecidableEq for Core.Ops.Obj
+deriving instance DecidableEq for Core.Ops.Pool
 deriving instance DecidableEq for Outcome
 
 instance (N rs : Nat) (c : Col) : Decidable (ColWF N rs c) := by unfold ColWF LimbsN; infer_instance
@@ -264,6 +268,39 @@ theorem truncation_within_one_unit (b : Nat) (hb : 1 ≤ b) (p : Col) (rs t : Na
 
 example : |valCoeff 4 ([[1, 2], [3, -4], [-8, 8]].drop 1) 0| < 2 ^ (4 * (3 - 1)) :=
   truncation_within_one_unit 4 (by decide) _ 1 0 (by decide)
+
+/-! ## straight-line programs
+
+`specStep N sz P op` is the program step on plaintext limb columns (`P i` = phase of pool entry `i`,
+`sz r` = limb count of the result entry); `exactOp` = the linear and rotation families above;
+`SmallRun p ops` = head-room at every pool reached before an operation (an executable check:
+`smallRunB`). -/
+
+/-- one step of the interpreter the driver executes is a homomorphism for the phase -/
+theorem step_phase_hom {p p' : Pool} {op : Op} (hp : PoolWF p) (hs : PoolSmall p) (hop : exactOp op = true)
+    (h : step p op = .ok p') :
+    PoolWF p' ∧ p'.N = p.N ∧ (∀ i, sizeAt p' i = sizeAt p i) ∧
+      ∀ s i, phaseAt s p' i = specStep p.N (sizeAt p) (phaseAt s p) op i :=
+  step_phase hp hs hop h
+
+/-- phase is a homomorphism for straight-line programs (induction on the op list) -/
+theorem program_phase_hom (ops : List Op) (p p' : Pool) (hp : PoolWF p) (hs : SmallRun p ops)
+    (hex : ∀ op ∈ ops, exactOp op = true) (h : run p ops = .ok p') :
+    PoolWF p' ∧ ∀ s i, phaseAt s p' i = specRun p.N (sizeAt p) (phaseAt s p) ops i :=
+  run_phase ops p p' hp hs hex h
+
+def exPool : Pool := { N := 2, scr := 0, objs := [.ct exRes2, .ct exRes, .ct exA, .ct exPt] }
+def exProg : List Op := [.rotate (-3) 1 2, .addAssign 0 1, .subNegateAssign 0 3, .mulXpMinusOneAssign 5 0, .add 1 2 3]
+
+example : ∃ p', run exPool exProg = .ok p' ∧
+    ∀ s i, phaseAt s p' i = specRun 2 (sizeAt exPool) (phaseAt s exPool) exProg i := by
+  have hr : ∃ p', run exPool exProg = .ok p' := exists_of_isOk (by decide +kernel)
+  obtain ⟨p', h⟩ := hr
+  exact ⟨p', h, (program_phase_hom exProg exPool p' (poolWF_of_all (by decide)) (smallRun_of_B _ _ (by decide +kernel))
+    (by decide) h).2⟩
+
+example : step exPool (.rotate (-3) 1 2) ≠ .panic "assert" ∧ exactOp (.rotate (-3) 1 2) = true := by
+  constructor <;> decide +kernel
 
 /-! ## defects of the pinned code (the model executes the code as it is)
 
